@@ -74,6 +74,11 @@ def shards(tier, seed):
     else:
         off = rng.randrange(5)
         s = set(range(1 + off, 2501, 5)) | {1, 2, 3} | set(range(978, 1001))
+        # the Moslem years that overlap a civil century year (leap in the
+        # Julian calendar, mostly not in the Gregorian one) always take part
+        for cy_ in range(700, 2501, 100):
+            h_ = int((cy_ - 622) * 33 / 32)
+            s |= {h_ - 1, h_, h_ + 1, h_ + 2}
         ah = sorted(s)
         off = rng.randrange(5)
         s = set(range(622 + off, 3001, 5)) | set(range(700, 1600, 100))
@@ -356,6 +361,58 @@ def case_civil_edges(mon, y):
 CASES = {"moslem_edges": case_moslem_edges, "civil_edges": case_civil_edges,
          "easter": case_easter, "pesach": case_pesach,
          "moslem_year": case_moslem_year, "civil_year": case_civil_year}
+
+
+def ambient(sv):
+    """A few unrelated, documented calls of the kind a program makes between
+    two calendar conversions (leap-year questions and February dates in both
+    calendars, days of the year).  Their answers are not judged here (C16,
+    C01 do); they are made so that whatever the library keeps between calls
+    has been filled by somebody else before the conversion under test."""
+    from pymeeus.Epoch import Epoch
+    rng = random.Random(sv)
+    for _ in range(rng.randrange(1, 5)):
+        y = rng.choice((rng.choice((1700, 1800, 1900, 2100, 2200, 2300, 2500)),
+                        rng.choice((2000, 2400, 1600)),
+                        rng.randrange(1, 16) * 100,
+                        -rng.randrange(0, 48) * 100,
+                        rng.randrange(-4712, 6000)))
+        op = rng.randrange(5)
+        try:
+            if op == 0:
+                Epoch.is_leap(y)
+            elif op == 1:
+                Epoch(y, 2, 28.5).leap()
+            elif op == 2:
+                Epoch.get_doy(y, 3, 1)
+            elif op == 3:
+                Epoch.doy2date(y, 60)
+            else:
+                Epoch(y, 3, 1).doy()
+        except Exception:
+            pass
+
+
+def warmup(order):
+    """Leap-year questions about every century year, the Gregorian ones first
+    or the Julian ones first: what a long-running program has asked before
+    it converts a date."""
+    from pymeeus.Epoch import Epoch
+    g = list(range(1600, 6001, 100))
+    j = list(range(-4700, 1600, 100))
+    for y in (g + j if order == "gregorian-first" else j + g):
+        Epoch.is_leap(y)
+
+
+def case_after_ambient(mon, kind, y, sv, order="none"):
+    if order != "none":
+        warmup(order)
+    ambient(sv)
+    mon.cls("after-unrelated-calls", ("amb", kind, y))
+    CASES[kind](mon, y)
+
+
+CASES["after_ambient"] = case_after_ambient
 _PART = {"medges": "moslem_edges", "cedges": "civil_edges",
          "easter": "easter", "pesach": "pesach", "m2g": "moslem_year",
          "g2m": "civil_year"}
@@ -371,10 +428,18 @@ def run(mon, spec):
     # seed; the thorough tier adds a descending and an ascending pass.
     rng = random.Random("%s/%s" % (spec.get("seed", 0), spec["name"]))
     rng.shuffle(years)
+    # what the process has been asked before: alternates between the shards
+    order = ("gregorian-first", "julian-first", "none")[
+        sum(map(ord, spec["name"])) % 3]
     passes = [years]
     if spec.get("tier") == "thorough" and kind in ("easter", "pesach"):
         passes += [sorted(years, reverse=True), sorted(years)]
     for ys in passes:
         for y in ys:
+            if rng.random() < 0.5:
+                sv = rng.randrange(1 << 30)
+                mon.begin("after_ambient", [kind, y, sv, order])
+                case_after_ambient(mon, kind, y, sv, order)
+                continue
             mon.begin(kind, [y])
             CASES[kind](mon, y)
